@@ -765,7 +765,7 @@ package nitro
 //@ ghost field Writer.probe *Item
 
 //@ func (*Writer).Put2
-//@ props C02 C01 C07
+//@ props C02 C01
 //@ use sl-globals
 //@ use! kc-antisym kc-trans kc-refl for call[(*skiplist.Skiplist).Insert2]
 //@ use! kc-antisym kc-trans kc-refl for ensures[reject-only-if-live]
@@ -789,6 +789,7 @@ package nitro
 //@ ensures[wf-versions] wfVersions(w.Nitro)
 //@ ensures[wf-gc] wfGC(w)
 //@ ensures[wf] wfWriter3(w)
+//@ ensures[old-views-unchanged] n != nil ==> (forall sn int {vis(w.probe, sn)} :: sn < w.currSn ==> !vis(w.probe, sn))
 //@ nopanic
 
 // A writer's lookup finds a node iff a live item with an equal key exists; the node found holds that item.
@@ -828,7 +829,7 @@ package nitro
 // physically and handed to the barrier exactly once; an older version is stamped dead in the current epoch and
 // appended to this writer's garbage list exactly once.
 //@ func (*Writer).DeleteNode
-//@ props C02 C06 C07 C01
+//@ props C02 C06 C01
 //@ use sl-globals
 //@ use! delAt-def for ensures[wf]
 //@ use! delAt-def for ensures[same-epoch]
@@ -852,6 +853,7 @@ package nitro
 //@ ensures[loser-touches-nothing] !success ==> (forall nd *skiplist.Node {nd.Link} :: nd.Link == old(nd.Link)) && w.gchead == old(w.gchead) && w.gctail == old(w.gctail) && handed[x] == old(handed[x])
 //@ ensures[winner-links-only-own-tail] forall nd *skiplist.Node {nd.Link} :: nd != x && nd != old(w.gctail) ==> nd.Link == old(nd.Link)
 //@ ensures[wf] wfWriter3(w)
+//@ ensures[old-views-unchanged] forall sn int {vis(cast(*Item, x.itm), sn)} :: sn < w.currSn ==> (vis(cast(*Item, x.itm), sn) <==> old(vis(cast(*Item, x.itm), sn))) && (old(cast(*Item, x.itm).bornSn) == w.currSn ==> !vis(cast(*Item, x.itm), sn))
 //@ nopanic
 
 // Delete by key: succeeds iff a live item with an equal key exists, and then removes exactly that item (physically
@@ -912,7 +914,7 @@ package nitro
 //@ use concat-def
 //@ chain-ensures
 //@ requires m != nil && m.snapshots != nil && m.store != nil && m.store != m.snapshots && wfWriters(m) && allGC(m, 0) && glDisjoint(m) && m < brk()
-//@ requires m.itemsCount < 4611686018427387904 && m.itemsCount > -4611686018427387904 && m.currSn >= 1
+//@ requires m.itemsCount < 4611686018427387904 && m.itemsCount > -4611686018427387904 && m.currSn >= 1 && m.currSn < 4294967295
 //@ call (*skiplist.Skiplist).Insert havoc m.snapshots.set, m.snapshots.phys, m.snapshots.n, m.snapshots.level, heap($alive), heap($brk), heap(skiplist.Stats.insertConflicts), heap(skiplist.Stats.readConflicts), heap(skiplist.Stats.nodeAllocs), heap(skiplist.Stats.usedBytes), heap(skiplist.Stats.levelNodesCount)
 //@ ghost-pre m.wi := 0
 //@ ghost-pre m.ngn := 0
@@ -940,6 +942,7 @@ package nitro
 //@ loop 1 decreases m.wn - m.wi
 //@ ghost-exit if result0 != nil then result0.sgl := m.ngl
 //@ ghost-exit if result0 != nil then result0.sgn := m.ngn
+//@ ensures[snapshot-below-epoch] result0 != nil ==> result0.sn < m.currSn && result0.sn >= 1
 //@ ensures[epoch] m.currSn == (old(m.currSn) + 1) % 4294967296 && (result1 == nil <==> result0 != nil) && (result0 == nil <==> old(m.currSn) == 4294967294)
 //@ ensures[record] result0 != nil ==> result0 >= old(brk()) && result0.db == m && result0.sn == old(m.currSn) && result0.refCount == 1 && result0.count == m.itemsCount && result0.gclist == ite(result0.sgn > 0, result0.sgl[0], nil)
 //@ ensures[count-merge] m.itemsCount == m.wcs[m.wn] && m.wcs[0] == old(m.itemsCount) && (forall k int {m.wl[k]} :: 0 <= k && k < m.wn ==> m.wcs[k + 1] == m.wcs[k] + old(wrAt(m, k).count) && wrAt(m, k).count == 0)
